@@ -23,10 +23,12 @@ BRUTE_CELLS = 4
 
 def base(rng, nattr=None, small=False):
     nattr = nattr or rng.choice([2, 3])
-    attrs = list("abc"[:nattr])
+    attrs = list("abcd"[:nattr])
     order = attrs[:]
     rng.shuffle(order)
-    if small:
+    if nattr == 4:
+        sz = dict(zip(attrs, (2, 2, 2, 2)))
+    elif small:
         sz = dict(zip(attrs, rng.choice([(2, 2), (2, 3), (3, 2)] if BRUTE_CELLS >= 6 else [(2, 2), (2, 2), (1, 3)]) if nattr == 2 else (2, 2, 1)))
     else:
         sz = dict(zip(attrs, rng.choice([(2, 3), (3, 3), (2, 2)]) if nattr == 2 else rng.choice([(2, 3, 2), (2, 2, 2), (3, 2, 2)])))
@@ -58,8 +60,22 @@ def families(rng, count, small_share=0.35):
     while len(out) < count:
         small = rng.random() < small_share
         inst = base(rng, small=small)
+        fam = rng.choice(["realisable", "replicated", "nested", "boundary", "random", "cyclic", "tree4"])
+        if fam == "tree4":
+            # a junction tree whose hub clique sorts after its neighbours: (a,d), (b,c), (c,d)
+            inst = base(rng, nattr=4)
+            inst["order"] = sorted(inst["order"])
+            inst["brute"] = False
+            for pr in (("a", "d"), ("b", "c"), ("c", "d")):
+                add_meas(inst, pr, "identity", rng.choice([0.5, 1.0, 2.0]))
+            d = [4 * rng.randint(-1, 1) for _ in range(4)]
+            s1, s2 = rng.choice([0.5, 1.0]), rng.choice([1.0, 2.0])
+            add_meas(inst, ("c", "d"), "identity", s1, [int(s1 * s1 * v) for v in d])
+            add_meas(inst, ("d", "c"), "identity", s2, permute([-int(s2 * s2 * v) for v in d], ("c", "d"), inst["sz"]))
+            inst["family"] = fam
+            out.append(inst)
+            continue
         attrs = inst["order"]
-        fam = rng.choice(["realisable", "replicated", "nested", "boundary", "random", "cyclic"])
         def rproj(k=None):
             return tuple(rng.sample(attrs, k or rng.choice([1, 2, min(2, len(attrs))])))
         if fam == "realisable":
@@ -149,8 +165,15 @@ def joint_grad(inst, p):
     return loss, G
 
 
+def scaled(inst, K, S):
+    """Data multiplied by K and noise by S: loss, optimum and gap bound scale by exactly K^2/S^2."""
+    return dict(inst, x=[v * K for v in inst["x"]], meas=[dict(m, y=[v * K for v in m["y"]], noise=m["noise"] * S) for m in inst["meas"]])
+
+
 def worker(job):
     inst, solver, iters, total_mode = job[:4]
+    if len(job) > 5 and job[5]:
+        inst = scaled(inst, *job[5])
     try:
         eng = E.make_engine(inst, iters)
         meas = E.measurements(inst, "mixed")
@@ -220,6 +243,11 @@ def run(ctx, canary=False):
         s = rng.choice(["MD", "RDA", "IG"])
         n = rng.choice([1, 2, 5, 50])
         jobs.append((inst, s, n, "given")); meta.append(("short", inst, lstar, s, n))
+    # the same certified optima at other scales: a million records measured with noise of hundreds or thousands of counts
+    for inst, lstar in pick[:6]:
+        K, S = rng.choice([(1e5, 1e3), (1e6, 1e2), (1e4, 10.0)])
+        for solver in ("MD", rng.choice(["RDA", "IG"])):
+            jobs.append((inst, solver, ITERS, "given", False, (K, S))); meta.append(("opt", scaled(inst, K, S), lstar * K * K / (S * S), solver, ITERS))
     # arbitrary noisy inputs, total given or estimated: decided by the gap certificate
     arb = uncert[: (len(uncert) if thorough else 6)]
     for k in range(120 if thorough else 8):
